@@ -221,6 +221,7 @@ class Contract:
                 if hook is not None:
                     shp = hook(name, tgt, vals) or shp
                 tgt.seq = shp.fresh_seq(st, f"{name}'")
+                st.ghost.setdefault("lists_modified_by_callee", []).append(tgt)
         if self_obj is not None:
             self.havoc(st, self_obj)
             # the callee's contract speaks about the events of *this* call only
